@@ -831,4 +831,234 @@ Proof.
     rewrite Z.eqb_refl. apply Hm. apply (sample_at_between_range _ k Hbt).
 Qed.
 
+
+(* ------------------------------------------------------------------ in terms of the history (C01's [hist]) *)
+(* with the default offset 1, [hist s] = [at_ s 1; ...; at_ s N] is the list of stored observations,
+   newest first; an in-range time never wraps around the record *)
+Lemma at_hist (s : ringR) k : (0 <= k < Z.of_nat (N s))%Z -> at_ s (1 + k) = nth (Z.to_nat k) (hist s) [].
+Proof.
+  intros Hk. unfold hist. rewrite (l_nth_map_seq []) by lia. f_equal. lia.
+Qed.
+
+Lemma grid_in_range n t k : in_range n t -> Rabs (IZR k * dt - t) <= tol -> (0 < n)%nat -> (0 <= k < Z.of_nat n)%Z.
+Proof.
+  intros (H1 & H2) Hk Hn. apply Rabs_le_inv in Hk. split.
+  - destruct (Z_lt_le_dec k 0) as [Hlt|]; [|assumption]. exfalso.
+    assert (Hle : (k <= -1)%Z) by lia. apply IZR_le in Hle. nra.
+  - destruct (Z_lt_le_dec k (Z.of_nat n)) as [|Hge]; [assumption|]. exfalso.
+    assert (Hle : (Z.of_nat n - 1 + 1 <= k)%Z) by lia. apply IZR_le in Hle. rewrite plus_IZR in Hle. change (IZR 1) with 1 in Hle. nra.
+Qed.
+
+(* select with the default offset: within tolerance of k*dt it is the observation recorded k steps
+   before the newest one; strictly between k*dt and (k+1)*dt it interpolates history entries k+1 (older)
+   and k (newer) - both genuine entries of the history, 0 <= k and k+1 <= N-1 *)
+Theorem select_scalar_hist (s : ringR) t interp : wf s -> full s -> in_range (N s) t ->
+  exists d sh, st s = SFull d sh (rows s) /\
+    (forall k, Rabs (IZR k * dt - t) <= tol ->
+       (0 <= k < Z.of_nat (N s))%Z /\
+       select_scalar RN s dt tol 1 t interp = Ok s (OObs d sh (nth (Z.to_nat k) (hist s) []))) /\
+    (forall k, between k t ->
+       (0 <= k /\ k + 1 < Z.of_nat (N s))%Z /\
+       select_scalar RN s dt tol 1 t interp =
+       Ok s (OObs d sh (zipw (fun p n => interp p n (IZR (k + 1) * dt - t) dt)
+                             (nth (Z.to_nat (k + 1)) (hist s) []) (nth (Z.to_nat k) (hist s) [])))).
+Proof.
+  intros Hwf Hf Hr. destruct (full_st s Hf) as (d & sh & Est). exists d, sh. split; [exact Est|]. split.
+  - intros k Hk. pose proof (grid_in_range _ _ _ Hr Hk (proj1 Hwf)) as Hkr. split; [exact Hkr|].
+    destruct (select_scalar_on_grid s 1 t k interp Hwf Hf Hr Hk) as (d' & sh' & Est' & ->).
+    rewrite Est in Est'. injection Est' as <- <-. rewrite at_hist by exact Hkr. reflexivity.
+  - intros k Hb. destruct (between_in_range _ _ _ Hr Hb) as (Hk0 & Hk1). split; [lia|].
+    destruct (select_scalar_off_grid s 1 t k interp Hwf Hf Hr Hb) as (d' & sh' & Est' & ->).
+    rewrite Est in Est'. injection Est' as <- <-.
+    rewrite at_hist by lia. replace (1 + k + 1)%Z with (1 + (k + 1))%Z by lia. rewrite at_hist by lia. reflexivity.
+Qed.
+
 End Time.
+
+(* ------------------------------------------------------------------ every history *)
+(* Runs of pushes, pointer moves, selects and inserts (each with its own tolerance, offset, times,
+   interpolation / extrapolation): the hypotheses of the theorems above (wfS, full, fixed size,
+   type and shape) hold in every reachable state, so the theorems apply after every history. *)
+Inductive rop :=
+| RPush (o : obsR) (inplace : bool)
+| RIncr (k : Z)
+| RSelS (tol : R) (off : Z) (t : R) (interp : interp_fn RN)
+| RSelT (tol : R) (off : Z) (tnd : nat) (times : list (list R)) (interp : interp_fn RN)
+| RInsS (o : obsR) (tol : R) (off : Z) (t : R) (extrap : extrap_fn RN) (inplace : bool)
+| RInsT (o : obsR) (tol : R) (off : Z) (tsh : list nat) (times : list R) (extrap : extrap_fn RN) (inplace : bool).
+
+Definition rstep (dt : R) (s : ringR) (op : rop) : @result R unit :=
+  match op with
+  | RPush o ip => push (castU RN) 0 s o ip
+  | RIncr k => incr s k
+  | RSelS tol off t i => select_scalar RN s dt tol off t i
+  | RSelT tol off tnd times i => select_tensor RN s dt tol off tnd times i
+  | RInsS o tol off t e ip => insert_scalar RN s o dt tol off t e ip
+  | RInsT o tol off tsh times e ip => insert_tensor RN s o dt tol off tsh times e ip
+  end.
+
+(* an operation that raises leaves the record unchanged *)
+Fixpoint rrun (dt : R) (s : ringR) (ops : list rop) : ringR :=
+  match ops with
+  | [] => s
+  | op :: tl => match rstep dt s op with Ok s' _ => rrun dt s' tl | Err _ => rrun dt s tl end
+  end.
+
+(* tensors passed in have as many elements as their shape says; tolerances are in [0, dt/2) *)
+Definition rop_ok (dt : R) (op : rop) : Prop :=
+  match op with
+  | RPush o _ => length (oel o) = nel (oshape o)
+  | RInsS o tol _ _ _ _ => 0 <= tol < dt / 2 /\ length (oel o) = nel (oshape o)
+  | RInsT o tol _ tsh times _ _ => 0 <= tol < dt / 2 /\ length (oel o) = nel (oshape o) /\ length times = nel tsh
+  | _ => True
+  end.
+
+Lemma shape_eqb_eq a b : shape_eqb a b = true -> a = b.
+Proof.
+  unfold shape_eqb. intros H. apply andb_prop in H. destruct H as (Hl & Hf). apply Nat.eqb_eq in Hl.
+  revert b Hl Hf. induction a as [|x a IH]; intros [|y b] Hl Hf; cbn in *; try lia; [reflexivity|].
+  apply andb_prop in Hf. destruct Hf as (Hxy & Hf). apply Nat.eqb_eq in Hxy. subst y. f_equal. apply IH; [lia|exact Hf].
+Qed.
+
+Lemma In_removelast {X} (x : X) l : In x (removelast l) -> In x l.
+Proof.
+  induction l as [|a l IH]; cbn; [tauto|]. destruct l as [|b l]; [cbn; tauto|].
+  intros [->|H]; [left; reflexivity|right; apply IH; exact H].
+Qed.
+
+Lemma wfS_of_hist (s' : ringR) d sh : wf s' -> st s' = SFull d sh (rows s') ->
+  Forall (fun r => length r = nel sh) (hist s') -> wfS s'.
+Proof.
+  intros Hwf' Est' Hall. apply (wfS_intro s' d sh Hwf' Est'). intros j.
+  pose proof Hwf' as (Hn' & _).
+  set (m := ((j - 1) mod Z.of_nat (N s'))%Z).
+  assert (Hm : (0 <= m < Z.of_nat (N s'))%Z) by (apply Z.mod_pos_bound; lia).
+  assert (Ej : at_ s' j = at_ s' (1 + m)).
+  { unfold at_. f_equal. apply (idx_eq_iffR s' j (1 + m) Hwf'). unfold m.
+    rewrite Zplus_mod_idemp_r. f_equal. lia. }
+  rewrite Ej, (at_hist s' m Hm).
+  rewrite Forall_forall in Hall. apply Hall. apply nth_In. unfold hist. rewrite map_length, seq_length. lia.
+Qed.
+
+Lemma push_wfS (s : ringR) (o : obsR) inplace d sh : wfS s -> st s = SFull d sh (rows s) ->
+  shape_eqb (oshape o) sh = true -> length (oel o) = nel sh ->
+  exists s', push (castU RN) 0 s o inplace = Ok s' OUnit /\ wfS s' /\ N s' = N s /\ st s' = SFull d sh (rows s') /\
+             hist s' = oel o :: removelast (hist s).
+Proof.
+  intros Hwf Est Hsh Hlen. assert (Hf : full s) by (unfold full; rewrite Est; exact I).
+  destruct (hist_push (castU RN) promU eqbU 0 s o inplace (proj1 Hwf) Hf) as (d0 & sh0 & Est0 & Hp).
+  rn_simpl. rewrite Est in Est0. injection Est0 as <- <-.
+  destruct (Hp Hsh) as (s' & Ep & Hwf' & HN & Est' & Hh). clear Hp. rewrite map_castU in Hh.
+  exists s'. split; [exact Ep|]. split; [|auto].
+  apply (wfS_of_hist s' d sh Hwf' Est'). rewrite Hh.
+  constructor; [exact Hlen|]. apply Forall_forall. intros r Hr. apply In_removelast in Hr.
+  unfold hist in Hr. apply in_map_iff in Hr. destruct Hr as (k & <- & _). apply (at_length s d sh); assumption.
+Qed.
+
+(* the first push into an uninitialised record creates a well-formed, initialised record of the
+   observation's shape: the base case of every history *)
+Lemma first_push_wfS (s : ringR) (o : obsR) inplace : (0 < N s)%nat -> ~ full s -> length (oel o) = nel (oshape o) ->
+  exists s', push (castU RN) 0 s o inplace = Ok s' OUnit /\ wfS s' /\ full s' /\ N s' = N s /\
+             st s' = SFull tt (oshape o) (rows s') /\
+             hist s' = oel o :: repeat (repeat 0 (nel (oshape o))) (N s - 1).
+Proof.
+  intros Hn Hnf Hlen.
+  destruct (push_creates_storage (castU RN) promU eqbU 0 s o inplace Hn Hnf) as (s' & Ep & Hwf' & HN & Est' & Hh).
+  cbn zeta in Est', Hh. rewrite map_castU in Hh.
+  match type of Est' with _ = SFull ?dd _ _ => assert (Edd : dd = tt) by (destruct dd; reflexivity); rewrite Edd in Est'; clear Edd end.
+  exists s'. split; [exact Ep|].
+  assert (W : wfS s').
+  { apply (wfS_of_hist s' tt (oshape o) Hwf' Est'). rn_simpl. rewrite Hh. constructor; [exact Hlen|].
+    apply Forall_forall. intros r Hr. apply repeat_spec in Hr. subst r. apply repeat_length. }
+  split; [exact W|]. split; [unfold full; rewrite Est'; exact I|]. auto.
+Qed.
+
+Lemma select_scalar_state (s s' : ringR) dt tol off t interp out :
+  select_scalar RN s dt tol off t interp = Ok s' out -> s' = s.
+Proof.
+  unfold select_scalar. rn_simpl. destruct (st s); try discriminate.
+  destruct (out_of_range RN (N s) dt tol t); try discriminate.
+  destruct (on_grid RN dt tol t); intros H; injection H as <- _; reflexivity.
+Qed.
+Lemma select_tensor_state (s s' : ringR) dt tol off tnd times interp out :
+  select_tensor RN s dt tol off tnd times interp = Ok s' out -> s' = s.
+Proof.
+  unfold select_tensor. rn_simpl. destruct (st s); try discriminate.
+  destruct (negb _); try discriminate. destruct (existsb _ _); try discriminate.
+  destruct (tnd =? _)%nat; intros H; injection H as <- _; reflexivity.
+Qed.
+
+Section Runs.
+Variable dt : R.
+Hypothesis Hdt : 0 < dt.
+
+Theorem rstep_wfS (s s' : ringR) op out d sh : wfS s -> st s = SFull d sh (rows s) -> (0 < nel sh)%nat ->
+  rop_ok dt op -> rstep dt s op = Ok s' out ->
+  wfS s' /\ N s' = N s /\ st s' = SFull d sh (rows s').
+Proof.
+  intros Hwf Est Hnel Hok Hs. assert (Hf : full s) by (unfold full; rewrite Est; exact I).
+  destruct op as [o ip|k|tol off t i|tol off tnd times i|o tol off t e ip|o tol off tsh times e ip]; cbn [rstep rop_ok] in *.
+  - (* push *)
+    destruct (shape_eqb (oshape o) sh) eqn:Esh.
+    + pose proof (shape_eqb_eq _ _ Esh) as Eq. rewrite Eq in Hok.
+      destruct (push_wfS s o ip d sh Hwf Est Esh Hok) as (s2 & Ep & W & HN & Est2 & _).
+      rn_simpl. rewrite Ep in Hs. injection Hs as <- _. auto.
+    + exfalso. unfold push in Hs. rn_simpl. rewrite Est in Hs. unfold write in Hs. rn_simpl. rewrite Est, Esh in Hs.
+      cbn [negb] in Hs. discriminate.
+  - (* incr *)
+    destruct (incr_spec (castU RN) promU eqbU 0 s k (proj1 Hwf) Hf) as (s2 & Ei & W & HN & Est2 & _).
+    rn_simpl. rewrite Ei in Hs. injection Hs as <- _.
+    assert (Hr : rows s2 = rows s) by (unfold rows; rewrite Est2; reflexivity).
+    split; [|split; [exact HN|rewrite Est2, Hr; exact Est]].
+    split; [exact W|]. rewrite Est2. exact (proj2 Hwf).
+  - apply select_scalar_state in Hs. subst s'. auto.
+  - apply select_tensor_state in Hs. subst s'. auto.
+  - (* insert, scalar time *)
+    destruct Hok as (Htol & Hlen).
+    destruct (shape_eqb (oshape o) sh) eqn:Esh.
+    2:{ exfalso. unfold insert_scalar in Hs. rn_simpl. rewrite Est, Esh in Hs. discriminate. }
+    pose proof (shape_eqb_eq _ _ Esh) as Eq. rewrite Eq in Hlen.
+    destruct (out_of_range RN (N s) dt tol t) eqn:Eo.
+    { exfalso. unfold insert_scalar in Hs. rn_simpl. rewrite Est, Esh in Hs. cbn [negb] in Hs.
+      rn_simpl. rewrite Eo in Hs. discriminate. }
+    apply (out_of_range_false dt tol Htol) in Eo.
+    destruct (grid_or_between dt tol Hdt Htol t) as [(k & Hk)|(k & Hb)].
+    + destruct (insert_scalar_on_grid dt tol Hdt Htol s o off t k e ip d sh Hwf Est Esh Hlen Eo Hk) as (s2 & E2 & W & HN & _ & Est2 & _).
+      rn_simpl. rewrite E2 in Hs. injection Hs as <- _. auto.
+    + destruct (insert_scalar_off_grid dt tol Hdt Htol s o off t k e ip d sh Hwf Est Esh Hlen Hnel Eo Hb) as (s2 & E2 & W & HN & _ & Est2 & _).
+      rn_simpl. rewrite E2 in Hs. injection Hs as <- _. auto.
+  - (* insert, tensor time *)
+    destruct Hok as (Htol & Hlen & Htl).
+    destruct (shape_eqb (oshape o) sh) eqn:Esh.
+    2:{ exfalso. unfold insert_tensor in Hs. rn_simpl. rewrite Est, Esh in Hs. discriminate. }
+    destruct (shape_eqb tsh sh) eqn:Etsh.
+    2:{ exfalso. unfold insert_tensor in Hs. rn_simpl. rewrite Est, Esh, Etsh in Hs. discriminate. }
+    pose proof (shape_eqb_eq _ _ Esh) as Eq. rewrite Eq in Hlen.
+    pose proof (shape_eqb_eq _ _ Etsh) as Eq'. rewrite Eq' in Htl.
+    destruct (existsb (out_of_range RN (N s) dt tol) times) eqn:Eo.
+    { exfalso. unfold insert_tensor in Hs. rn_simpl. rewrite Est, Esh, Etsh in Hs. cbn [negb] in Hs.
+      rn_simpl. rewrite Eo in Hs. discriminate. }
+    assert (Hr : Forall (in_range dt tol (N s)) times).
+    { apply Forall_forall. intros t Ht. apply (out_of_range_false dt tol Htol).
+      destruct (out_of_range RN (N s) dt tol t) eqn:E; [|reflexivity].
+      assert (X : existsb (out_of_range RN (N s) dt tol) times = true) by (apply existsb_exists; eauto).
+      rn_simpl. congruence. }
+    destruct (insert_tensor_spec dt tol Hdt Htol s o off tsh times e ip d sh Hwf Est Esh Etsh Hlen Htl Hr) as (s2 & E2 & W & HN & _ & Est2 & _).
+    rn_simpl. rewrite E2 in Hs. injection Hs as <- _. auto.
+Qed.
+
+(* the invariant over every run: well-formed, initialised, same size / type / shape *)
+Theorem rrun_wfS : forall ops (s : ringR) d sh, wfS s -> st s = SFull d sh (rows s) -> (0 < nel sh)%nat ->
+  Forall (rop_ok dt) ops ->
+  let s' := rrun dt s ops in
+  wfS s' /\ full s' /\ N s' = N s /\ st s' = SFull d sh (rows s').
+Proof.
+  induction ops as [|op ops IH]; intros s d sh Hwf Est Hnel Hok; cbn [rrun].
+  - cbn zeta. repeat split; try apply Hwf; auto. unfold full. rewrite Est. exact I.
+  - inversion Hok as [|? ? Hop Hops]; subst. destruct (rstep dt s op) as [s1 out|er] eqn:Es.
+    + destruct (rstep_wfS s s1 op out d sh Hwf Est Hnel Hop Es) as (W1 & HN1 & Est1).
+      destruct (IH s1 d sh W1 Est1 Hnel Hops) as (A & B & C & D). cbn zeta in *. repeat split; try apply A; auto. congruence.
+    + apply IH; assumption.
+Qed.
+
+End Runs.
